@@ -75,6 +75,13 @@ def cases(shard, tier):
                         if src == 'struct' and len(set(rows)) > 1:
                             continue        # one structured array feeds all frames: equal row counts only
                         yield {'kind': 'frames', 'rows': list(rows), 'names': names, 'src': src}
+                        # a row window that lies inside every frame's data, and the input chunk size, apply per frame
+                        for win in ((0, 1), (1, 2), (1, None)):
+                            if (win[1] or win[0] + 1) > min(rows):
+                                continue
+                            for chunk in (None, 1):
+                                yield {'kind': 'frames', 'rows': list(rows), 'names': names, 'src': src, 'win': list(win),
+                                       'chunk': chunk}
         return
     seqs = [TEMPLATES[t] for t in shard['templates']]
     for il in _interleavings(seqs):
@@ -82,6 +89,10 @@ def cases(shard, tier):
         # (equally named) data set of every logical file
         for wdata in ((None, 'extra', 'override') if shard['mode'] == 'distinct' else (None,)):
             yield {'kind': 'lf', 'mode': shard['mode'], 'templates': shard['templates'], 'order': il, 'wdata': wdata}
+        if shard['mode'] == 'distinct' and len(seqs) == 2:
+            # a row window (inside the data of every logical file's frame) applies to each logical file alike
+            yield {'kind': 'lf', 'mode': shard['mode'], 'templates': shard['templates'], 'order': il, 'wdata': None,
+                   'win': [1, 2]}
 
 
 def lf_spec(c):
@@ -121,6 +132,8 @@ def lf_spec(c):
             ops.append(S.op_add('parameter', f'P{i}', 'PARAM', lf=L, zones=[{'$ref': f'Z{i}'}], values=[float(i)],
                                 **sn(i, 'parameter')))
     sp = {'sul': {'max_record_length': 8192}, 'ops': ops, 'write': {}}
+    if c.get('win'):
+        sp['write']['from_idx'], sp['write']['to_idx'] = c['win']
     if c.get('wdata') == 'extra':
         sp['write']['data'] = {'$datadict': {'EXTRA-UNUSED': S.arr_spec('float32', [2], [0x3F800000, 0x40000000])}}
     elif c.get('wdata') == 'override':
@@ -146,6 +159,12 @@ def frames_spec(c):
         data[(f, 'i')] = a
         data[(f, 'v')] = b
     sp = {'sul': {'max_record_length': 8192}, 'ops': ops, 'write': {}}
+    if c.get('win'):
+        sp['write']['from_idx'] = c['win'][0]
+        if c['win'][1] is not None:
+            sp['write']['to_idx'] = c['win'][1]
+    if c.get('chunk'):
+        sp['write']['input_chunk_size'] = c['chunk']
     if c['src'] != 'inline':
         m = M.Model(sp)
         dd = {}
@@ -195,5 +214,5 @@ def run_case(c):
 def _brief(c):
     if c['kind'] == 'lf':
         order = ' '.join(f"L{i}.{TEMPLATES[c['templates'][i]][p]}" for i, p in c['order'])
-        return {'mode': c['mode'], 'templates': c['templates'], 'order': order, 'wdata': c.get('wdata')}
+        return {'mode': c['mode'], 'templates': c['templates'], 'order': order, 'wdata': c.get('wdata'), 'win': c.get('win')}
     return c
